@@ -759,6 +759,23 @@ fn unescape_string(token: &Token<'_>) -> (Vec<ParseError>, String) {
     (diagnostics, res)
 }
 
+/// Verification hook: `unescape_string` on a bare token text. Returns
+/// the number of diagnostics and the unescaped string.
+#[cfg(wilfred_garden_verif)]
+pub(crate) fn verif_unescape_string(text: &str) -> (usize, String) {
+    let (_vfs, vfs_path) = vfs::Vfs::singleton(
+        std::path::PathBuf::from("/verif_input.gdn"),
+        text.to_owned(),
+    );
+    let token = Token {
+        position: Position::todo(&vfs_path),
+        text,
+        preceding_comments: vec![],
+    };
+    let (errors, s) = unescape_string(&token);
+    (errors.len(), s)
+}
+
 fn parse_simple_expression(
     tokens: &mut TokenStream,
     id_gen: &mut IdGenerator,
